@@ -169,11 +169,27 @@ func (o *oracle) judge(c *Case) *verdict {
 	set(rTooFar, m)
 	// spendable bandwidth: the channel's, unless an aux traffic shaper handles
 	// the channel and reports its own figure.
-	bw := c.Bandwidth
-	if c.Shaper == "bw" {
-		bw = c.AuxBW
+	bwB := u(c.Bandwidth)
+	switch c.Shaper {
+	case "bw":
+		bwB = u(c.AuxBW)
+	case "bw-link": // the shaper reports the channel's figure minus a constant (never below zero)
+		bwB.Sub(bwB, u(c.AuxBW))
+	case "bw-amt": // the shaper reports the amount it is asked about minus one (AuxBW=0) / exactly (AuxBW=1)
+		bwB = new(big.Int).Add(out, u(c.AuxBW))
+		bwB.Sub(bwB, big.NewInt(1))
 	}
-	set(rBandwidth, new(big.Int).Sub(u(bw), out))
+	if bwB.Sign() < 0 {
+		bwB.SetInt64(0)
+	}
+	if shaperFails(c) {
+		// The shaper is configured but cannot say whether it handles the channel /
+		// how much it can carry: the spendable bandwidth cannot be established, so
+		// the rule does not hold (and has no threshold).
+		v.holds[rBandwidth] = false
+	} else {
+		set(rBandwidth, new(big.Int).Sub(bwB, out))
+	}
 
 	v.accept = true
 	for _, r := range rules {
@@ -305,17 +321,31 @@ var failureNames = map[string][]int{
 var updateRules = []int{rNoLoss, rFee, rMin, rMax, rBandwidth, rTooSoon, rDelta}
 
 // failureRules returns the rules a failure code may name in the case's
-// configuration. When the link cannot obtain any channel_update
+// configuration. When the configured aux traffic shaper fails, TemporaryNodeFailure
+// stands for the bandwidth rule. When the link cannot obtain any channel_update
 // (update_source "fetcherr") a failure that must embed one degrades to
 // TemporaryNodeFailure; it then stands for the rules in updateRules. In every
 // other configuration TemporaryNodeFailure names no rule of the statement.
 func failureRules(code string, c *Case) ([]int, bool) {
-	if code == "TemporaryNodeFailure" && c.UpdSrc == "fetcherr" {
-		return updateRules, true
+	if code == "TemporaryNodeFailure" {
+		var l []int
+		if c.UpdSrc == "fetcherr" {
+			l = append(l, updateRules...)
+		}
+		if shaperFails(c) {
+			// no bandwidth figure could be obtained from the configured shaper
+			l = append(l, rBandwidth)
+		}
+		if l != nil {
+			return l, true
+		}
 	}
 	r, ok := failureNames[code]
 	return r, ok
 }
+
+// shaperFails: the configured aux traffic shaper answers with an error.
+func shaperFails(c *Case) bool { return c.Shaper == "err-handle" || c.Shaper == "err-bw" }
 
 // classKey packs the boundary situation of a case into one integer:
 // per rule the margin class (6 values), the entry point, the code's outcome.
